@@ -28,7 +28,22 @@ class RawState:  # pylint: disable=too-few-public-methods
         self.index_error = None
 
 
+class LayoutBroken(Exception):
+    """A folder or file that every initialised container has (config.json, packs/, loose/, duplicates/, sandbox/) is
+    gone: no public operation may remove it, so the engines report this as a violation, not as a harness error."""
+
+
 def read_state(folder) -> RawState:
+    try:
+        return _read_state(folder)
+    except FileNotFoundError as exc:
+        name = os.path.relpath(exc.filename, str(folder)) if exc.filename else '?'
+        if name in ('config.json', 'packs', 'loose', 'duplicates', 'sandbox'):
+            raise LayoutBroken(f'the container lost its {name!r} entry') from exc
+        raise
+
+
+def _read_state(folder) -> RawState:
     folder = str(folder)
     state = RawState()
     with open(os.path.join(folder, 'config.json'), encoding='utf8') as handle:
